@@ -1,7 +1,7 @@
 #!/bin/sh
 # tools/mutant_run.sh <patch.diff> <check ids...> : run quick checks against a scratch copy of /repo/src with the patch applied.
 # The scratch copy lives outside /repo and /verif and is removed afterwards.
-P="$1"; shift
+P="$(readlink -f "$1")"; shift
 D=$(mktemp -d /tmp/h2mut.XXXXXX)
 cp -r /repo/src "$D/src"
 ( cd "$D" && patch -s -p1 < "$P" ) || { echo "patch failed"; rm -rf "$D"; exit 3; }
